@@ -193,3 +193,9 @@ def r6(cx):
     mb = f.body("MemTable::flush")
     pushes = [c for c in mb.calls_to("std::vec::Vec::push")]
     cx.check(bool(pushes) and all(mb.in_cycle(c.bb) for c in pushes), "flush collects an index entry for every key when the index is enabled", "index-collect", mb.where())
+
+
+@rule("C10", "C10.R7", "version index: the B+tree leaf chain stays doubly linked (backward history = forward history)")
+def r7(cx):
+    from .c18 import rule_leaf_chain
+    rule_leaf_chain(cx)
